@@ -116,7 +116,7 @@ func stripDir(v any, dir string) any {
 func C18(r *drv.Run) {
 	r.BuildWorker()
 	r.BuildCLI()
-	r.Rule = "the built vore binary in scratch directories over the cross product {-com, -src} x 6 file sets (one file, several by glob, none matching, a glob with the star in the middle of a name, a glob into a sub-directory, a wildcard directory segment that selects a symbolic link to a directory) x {none, -json, -formatted-json} x {-json-file} x {-formatted-json-file} x {default, NEW, NOTHING, OVERWRITE} x {-no-output} x {find, replace, two statements, failing program, literals with escapes} (thorough: all 5 760; quick: a seed-selected 600) plus 14 invalid invocations and 19 unknown mode names (other letter cases, near misses, the engine's internal fourth mode CONFIRM, numbers, lists) each with a find and a replace program; a fifth of the -src invocations with the program arriving through a named pipe, a third of the invocations with longer JSON output files left over from an earlier run, a quarter with the -files pattern made absolute, two thirds with their flag groups in a seed-chosen order and spelling (-flag value, --flag value, -flag=value). Oracle: exit status; stdout under -json/-formatted-json is exactly one JSON document equal (after decoding) to the library's result for the same program and files, computed by a worker through RunFiles; the named JSON files likewise; replace mode honoured with NEW as default and outputs equal to the splice (directory snapshot before/after); invalid invocations, unknown modes and compile errors exit non-zero with a message and an empty snapshot diff. Non-trivial = invocation with >= 1 match whose JSON/stdout/file effects were all verified; distinct by configuration."
+	r.Rule = "the built vore binary in scratch directories over the cross product {-com, -src} x 6 file sets (one file, several by glob, none matching, a glob with the star in the middle of a name, a glob into a sub-directory, a wildcard directory segment that selects a symbolic link to a directory) x {none, -json, -formatted-json} x {-json-file} x {-formatted-json-file} x {default, NEW, NOTHING, OVERWRITE} x {-no-output} x {find, replace, two statements, failing program, literals with escapes} (thorough: all 5 760; quick: a seed-selected 600) plus 14 invalid invocations and 19 unknown mode names (other letter cases, near misses, the engine's internal fourth mode CONFIRM, numbers, lists) each with a find and a replace program; a fifth of the -src invocations with the program arriving through a named pipe, a third of the invocations with longer JSON output files left over from an earlier run, a quarter with the -files pattern made absolute, an eighth started from the root directory with a relative pattern leading into the scratch directory, two thirds with their flag groups in a seed-chosen order and spelling (-flag value, --flag value, -flag=value). Oracle: exit status; stdout under -json/-formatted-json is exactly one JSON document equal (after decoding) to the library's result for the same program and files, computed by a worker through RunFiles; the named JSON files likewise; replace mode honoured with NEW as default and outputs equal to the splice (directory snapshot before/after); invalid invocations, unknown modes and compile errors exit non-zero with a message and an empty snapshot diff. Non-trivial = invocation with >= 1 match whose JSON/stdout/file effects were all verified; distinct by configuration."
 	r.Assumptions = []string{
 		"with -no-output only exit status and file effects of the replace mode are demanded (the documentation does not say whether JSON files are still written)",
 		"zero matches / no files: exit 0 and no JSON demanded (the property's 'when there is at least one match')",
@@ -274,6 +274,9 @@ func c18Run(r *drv.Run, i int, cfg c18Config, lib []wire.Match, libStr [][]wire.
 			os.WriteFile(filepath.Join(dir, "prog.vore"), []byte(body), 0o644)
 		}
 		args = append(args, "-src", "prog.vore")
+		if i%8 == 5 {
+			args[len(args)-1] = filepath.Join(dir, "prog.vore")
+		}
 	} else {
 		args = append(args, "-com", prog.src)
 	}
@@ -282,15 +285,26 @@ func c18Run(r *drv.Run, i int, cfg c18Config, lib []wire.Match, libStr [][]wire.
 		glob = dir + "/" + glob // the same selection spelled as an absolute pattern
 		r.Count("invocations_with_absolute_files_pattern", 1)
 	}
+	// started from the ROOT directory with a relative pattern that leads into the scratch directory (every other path of
+	// the invocation absolute): the working directory is where relative patterns start, whichever directory it is
+	fromRoot := i%8 == 5
+	cwd := dir
+	jsonOut, fjsonOut := "out.json", "out.formatted.json"
+	if fromRoot {
+		cwd = "/"
+		glob = strings.TrimPrefix(dir, "/") + "/" + fs.glob
+		jsonOut, fjsonOut = filepath.Join(dir, jsonOut), filepath.Join(dir, fjsonOut)
+		r.Count("invocations_started_from_the_root_directory", 1)
+	}
 	args = append(args, "-files", glob)
 	if cfg.out != "" {
 		args = append(args, "-"+cfg.out)
 	}
 	if cfg.jsonFile {
-		args = append(args, "-json-file", "out.json")
+		args = append(args, "-json-file", jsonOut)
 	}
 	if cfg.fjFile {
-		args = append(args, "-formatted-json-file", "out.formatted.json")
+		args = append(args, "-formatted-json-file", fjsonOut)
 	}
 	if cfg.mode != "" {
 		args = append(args, "-replace-mode", cfg.mode)
@@ -332,7 +346,7 @@ func c18Run(r *drv.Run, i int, cfg c18Config, lib []wire.Match, libStr [][]wire.
 		r.Count("invocations_with_shuffled_respelled_arguments", 1)
 	}
 	before := fsmon.Take(dir)
-	code, stdout, stderr := runCLI(r.CLIBin, dir, args)
+	code, stdout, stderr := runCLI(r.CLIBin, cwd, args)
 	after := fsmon.Take(dir)
 	diff := fsmon.Diff(before, after)
 	r.Eval(1)
